@@ -11,6 +11,8 @@ package c18
 import (
 	"context"
 	"fmt"
+	"os"
+	"runtime/pprof"
 	"strings"
 	"time"
 
@@ -23,17 +25,23 @@ import (
 )
 
 func init() {
-	evid.Register(&evid.Check{ID: "C18", Level: "exploration", Run: run, QuickBudget: 100 * time.Second, ThoroughBudget: 14 * time.Minute})
+	evid.Register(&evid.Check{ID: "C18", Level: "exploration", Run: run, QuickBudget: 90 * time.Second, ThoroughBudget: 14 * time.Minute})
 }
 
 type scope struct{ Path, Module string }
 
+// scopes of override rules and of scope-only disable rules. The quick tier leaves module two to the
+// cross-family block; the thorough tier adds a path+module scope and ".".
 func scopes(quick bool) []scope {
-	s := []scope{{}, {Path: pathDir}, {Path: pathFile}, {Module: moduleOne}, {Module: moduleTwo}, {Path: pathWKT}}
-	if !quick {
-		s = append(s, scope{Path: pathFile, Module: moduleOne}, scope{Path: "."})
+	if quick {
+		return []scope{{}, {Path: pathDir}, {Path: pathFile}, {Module: moduleOne}, {Path: pathWKT}}
 	}
-	return s
+	return []scope{{}, {Path: pathDir}, {Path: pathFile}, {Module: moduleOne}, {Module: moduleTwo}, {Path: pathWKT}, {Path: pathFile, Module: moduleOne}, {Path: "."}}
+}
+
+// crossScopes are used by the cross-family block in both tiers.
+func crossScopes() []scope {
+	return []scope{{}, {Path: pathDir}, {Path: pathFile}, {Module: moduleOne}, {Module: moduleTwo}, {Path: pathWKT}}
 }
 
 // tmpl is an override rule whose string value depends on its position in the sequence, so that two rules
@@ -78,19 +86,28 @@ func (t tmpl) at(pos int) Override {
 	return o
 }
 
-// block is one sub-space: every override sequence (length <= maxLen over tmpls) x every set of <= 2 disables.
+// block is one sub-space: every override sequence over Tmpls of length <= 2 x every set of <= 2 disables,
+// plus (Seqs3 non-empty) every sequence of length 3 x every set of <= 1 disables.
 type block struct {
 	Name     string
 	Tmpls    []tmpl
 	Seqs     [][]int
 	Disables []Disable
 	Sets     [][]int
+	Seqs3    [][]int
+	Sets1    [][]int
 }
 
-func (b *block) size() int { return len(b.Seqs) * len(b.Sets) }
+func (b *block) size() int { return len(b.Seqs)*len(b.Sets) + len(b.Seqs3)*len(b.Sets1) }
 
 func (b *block) config(i int) Config {
-	seq, set := b.Seqs[i/len(b.Sets)], b.Sets[i%len(b.Sets)]
+	var seq, set []int
+	if n := len(b.Seqs) * len(b.Sets); i < n {
+		seq, set = b.Seqs[i/len(b.Sets)], b.Sets[i%len(b.Sets)]
+	} else {
+		i -= n
+		seq, set = b.Seqs3[i/len(b.Sets1)], b.Sets1[i%len(b.Sets1)]
+	}
 	c := Config{Enabled: true}
 	for pos, ti := range seq {
 		c.Overrides = append(c.Overrides, b.Tmpls[ti].at(pos+1))
@@ -140,21 +157,25 @@ func familyBlocks(quick bool) []*block {
 				}
 			}
 		}
-		maxLen := 2
+		b.Seqs = enum.Sequences(len(b.Tmpls), 0, 2)
 		if !quick && (fam.Prefix != "" || fam.Suffix != "") {
-			maxLen = 3 // value/prefix/suffix interplay
-		}
-		if !quick && maxLen == 3 && len(b.Tmpls) > 16 {
-			// keep length-3 sequences affordable: drop the two extra thorough scopes for the 3-option family
-			var keep []tmpl
-			for _, t := range b.Tmpls {
-				if t.Scope.Path != "." && !(t.Scope.Path != "" && t.Scope.Module != "") {
-					keep = append(keep, t)
+			// value/prefix/suffix interplay: length-3 sequences (without the two extra thorough scopes for the
+			// 3-option family, to keep them affordable; Tmpls keeps its order, so indexes < len stay valid)
+			n := len(b.Tmpls)
+			if fam.Prefix != "" && fam.Suffix != "" {
+				var keep, extra []tmpl
+				for _, t := range b.Tmpls {
+					if t.Scope.Path == "." || (t.Scope.Path != "" && t.Scope.Module != "") {
+						extra = append(extra, t)
+					} else {
+						keep = append(keep, t)
+					}
 				}
+				b.Tmpls = append(keep, extra...)
+				n = len(keep)
 			}
-			b.Tmpls = keep
+			b.Seqs3 = enum.Sequences(n, 3, 3)
 		}
-		b.Seqs = enum.Sequences(len(b.Tmpls), 0, maxLen)
 		// disable rules that can matter to this family, plus three that must not
 		b.Disables = scopeDisables(sc)
 		for _, opt := range []string{fam.Value, fam.Prefix, fam.Suffix} {
@@ -175,6 +196,7 @@ func familyBlocks(quick bool) []*block {
 		}
 		b.Disables = append(b.Disables, Disable{FileOption: other}, Disable{FieldOption: jstype}, Disable{Field: fieldA})
 		b.Sets = enum.Subsets(len(b.Disables), 0, 2)
+		b.Sets1 = enum.Subsets(len(b.Disables), 0, 1)
 		blocks = append(blocks, b)
 	}
 	// jstype
@@ -212,7 +234,7 @@ func familyBlocks(quick bool) []*block {
 
 // allDisables is the union alphabet used by the cross-family block.
 func allDisables(quick bool) []Disable {
-	out := scopeDisables(scopes(quick))
+	out := scopeDisables(crossScopes())
 	for i := range families {
 		for _, opt := range []string{families[i].Value, families[i].Prefix, families[i].Suffix} {
 			if opt != "" {
@@ -236,7 +258,7 @@ func allDisables(quick bool) []Disable {
 func crossConfigs(quick bool) []Config {
 	var lists [][]Override
 	lists = append(lists, nil)
-	for _, s := range scopes(quick) {
+	for _, s := range crossScopes() {
 		var l []Override
 		pos := 1
 		for i := range families {
@@ -487,6 +509,12 @@ func run(r *evid.Run) {
 	r.Assume("v1beta1 buf.gen.yaml and ModifyPreserveExisting (not used by the CLI) are out of scope; `buf generate` with a recording plugin is not run here")
 	r.Assume("a disable rule that names only a field exempts that field's options, not file options (bufconfig.ManagedDisableRule doc: FieldName is 'the field to disable managed mode for')")
 
+	if pf := os.Getenv("VERIF_C18_PPROF"); pf != "" {
+		if f, err := os.Create(pf); err == nil {
+			_ = pprof.StartCPUProfile(f)
+			defer pprof.StopCPUProfile()
+		}
+	}
 	x := &runner{r: r, ck: &checker{r: r, st: &stats{}}}
 	for _, spec := range imageSpecs() {
 		m, err := buildMaster(ctx, spec)
@@ -546,6 +574,31 @@ func run(r *evid.Run) {
 	blocks := familyBlocks(quick)
 	cross := crossConfigs(quick)
 	v1 := v1Configs()
+	crossOff := cross
+	if only := os.Getenv("VERIF_C18_BLOCKS"); only != "" {
+		// debugging aid (mutant runs): restrict the run to some blocks; the run is then reported as incomplete
+		want := map[string]bool{}
+		for _, n := range strings.Split(only, ",") {
+			want[n] = true
+		}
+		var kept []*block
+		for _, b := range blocks {
+			if want[b.Name] {
+				kept = append(kept, b)
+			}
+		}
+		blocks = kept
+		if !want["cross"] {
+			cross = nil
+		}
+		if !want["off"] {
+			crossOff = nil
+		}
+		if !want["v1"] {
+			v1 = nil
+		}
+		r.Incomplete("VERIF_C18_BLOCKS=" + only + ": only these blocks were run")
+	}
 	offsets := make([]int, len(blocks)+1)
 	blockSizes := map[string]int{}
 	for i, b := range blocks {
@@ -553,11 +606,11 @@ func run(r *evid.Run) {
 		blockSizes[b.Name] = b.size()
 	}
 	nFamily := offsets[len(blocks)]
-	total := nFamily + 2*len(cross) + len(v1)
+	total := nFamily + len(cross) + len(crossOff) + len(v1)
 	r.Set("configs_family_blocks", nFamily)
 	r.Set("configs_per_family_block", blockSizes)
 	r.Set("configs_cross_family", len(cross))
-	r.Set("configs_managed_off", len(cross))
+	r.Set("configs_managed_off", len(crossOff))
 	r.Set("configs_v1", len(v1))
 	r.Set("images", len(x.masters))
 
@@ -573,12 +626,12 @@ func run(r *evid.Run) {
 		case i < nFamily+len(cross):
 			cfg := cross[i-nFamily]
 			x.runCase(i, "v2", cfg.RenderV2(), cfg)
-		case i < nFamily+2*len(cross):
-			cfg := cross[i-nFamily-len(cross)]
+		case i < nFamily+len(cross)+len(crossOff):
+			cfg := crossOff[i-nFamily-len(cross)]
 			cfg.Enabled = false
 			x.runCase(i, "v2", cfg.RenderV2(), cfg)
 		default:
-			v := v1[i-nFamily-2*len(cross)]
+			v := v1[i-nFamily-len(cross)-len(crossOff)]
 			x.runCase(i, "v1", v.RenderV1(), v.ToConfig())
 		}
 	})
